@@ -329,7 +329,7 @@ func (prop) Generate(r *core.RNG, tier string) []json.RawMessage {
 	for _, c := range corner() {
 		out = append(out, enc(c))
 	}
-	n := 16
+	n := 22
 	if tier == "thorough" {
 		n = 260
 	}
